@@ -202,14 +202,14 @@ def absUnit (s : State) (h : Nat) (r : Outcome) : Option (State × List Entry ×
       (objOf w.c.ncols w.o).map fun o' => ({ rows := w.rows, nextId := w.nextId, objs := s.objs.set h o' }, untag w.log, out)
     else none
 
-/-- the end of a constructor call: a successful one adds a handle, a failing one leaves none -/
+/-- the end of a constructor call: a successful one adds a handle; a failing one leaves none (the half-built instance
+    is garbage: only the thread-local list must be gone) -/
 def absNew (s : State) (r : Outcome) : Option (State × List Entry × Out) :=
   (outOf r).bind fun (w, out) =>
-    if quiet w then
-      match out with
-      | .ok => (objOf w.c.ncols w.o).map fun o' =>
-          ({ rows := w.rows, nextId := w.nextId, objs := s.objs ++ [o'] }, untag w.log, out)
-      | _ => some ({ rows := w.rows, nextId := w.nextId, objs := s.objs }, untag w.log, out)
-    else none
+    match out with
+    | .ok => if quiet w then (objOf w.c.ncols w.o).map fun o' =>
+          ({ rows := w.rows, nextId := w.nextId, objs := s.objs ++ [o'] }, untag w.log, out) else none
+    | _ => if w.postponed.isSome then none
+           else some ({ rows := w.rows, nextId := w.nextId, objs := s.objs }, untag w.log, out)
 
 end SqlObjVerif.Events
